@@ -127,7 +127,9 @@ def checkStep (idx : Nat) (t : SlotTable) (st : Step) (obs : Val) : SlotTable ×
       match (t.get src).recs with
       | some recs => checkInit idx "Converter(records of an existing converter + new records)" (.ok (recs ++ extra)) true obs
       | none => [])
-  | .init dst recs _ strict => (t.put { slot := dst }, checkInit idx "Converter(...)" (.ok recs) strict obs)
+  | .init dst recs _ strict =>
+    -- a strict converter holds exactly the records it was given (whatever iterable they came in)
+    (t.put { slot := dst, expect := if strict then some recs else none }, checkInit idx "Converter(...)" (.ok recs) strict obs)
   | .loadPm dst pm _ strict =>
     (t.put { slot := dst, expect := some (Loaders.prefixMapRecords pm) },
       checkInit idx "from_prefix_map" (.ok (Loaders.prefixMapRecords pm)) strict obs)
